@@ -16,7 +16,7 @@ def _c04(args):
     """One program, K perturbed variants (different cuts / perturbation kinds)."""
     seed, i, K = args
     rng = random.Random((seed * 48271 + i * 69621) & 0xFFFFFFFF)
-    fam = rng.choice(["lookback", "lookback", "lookback", "flat", "nested", "flows", "risk", "replay"])
+    fam = rng.choice(["lookback", "lookback", "lookback", "flat", "nested", "flows", "risk", "replay", "fi", "closeroll"])
     prog = btgen.prog_by_family(seed, i, fam)
     T = prog["T"]
     outs = []
